@@ -83,6 +83,10 @@ func (h *DirHandler) AddOut(msg *fbb.Message) error {
 func (h *DirHandler) ProcessInbound(msgs ...*fbb.Message) (err error) {
 	dir := path.Join(h.MBoxPath, DIR_INBOX)
 	for _, m := range msgs {
+		// The MID is chosen by the remote station and is used as file name.
+		if !validMID(m.MID()) {
+			return fmt.Errorf("Refusing to store message with invalid MID %q", m.MID())
+		}
 		filename := path.Join(dir, m.MID()+Ext)
 
 		m.Header.Set("X-Unread", "true")
@@ -97,6 +101,12 @@ func (h *DirHandler) ProcessInbound(msgs ...*fbb.Message) (err error) {
 		}
 	}
 	return
+}
+
+// validMID reports whether mid can safely be used as the name of a file in the mailbox:
+// it must not be able to address another directory, nor yield a dot file (ignored by LoadMessageDir).
+func validMID(mid string) bool {
+	return mid != "" && mid[0] != '.' && !strings.ContainsAny(mid, `/\`)
 }
 
 func (h *DirHandler) GetInboundAnswer(p fbb.Proposal) fbb.ProposalAnswer {
